@@ -155,13 +155,26 @@ def run(fx, chk, tier):
         b = body_of(frs)
         seeks = [(bb, t) for bb, t in b.calls() if (t["callee"].get("path") or "").endswith("Seek::seek")]
         reads = [(bb, t) for bb, t in b.calls() if (t["callee"].get("path") or "").endswith("Read::read_exact")]
-        ok = len(seeks) == 1 and len(reads) == 1 and "sample_offset" in b.deep_str(seeks[0][1]["args"][1]) and b.dominates(seeks[0][0], reads[0][0])
+        import c07
+
+        def from_call(op, callee_name):
+            """does the operand derive (through assignments, conversions and helper calls) from the result of a call to
+            Mp4Track::<callee_name> in this function?"""
+            pl = op_place(op)
+            if pl is None:
+                return False
+            for bb, t in b.calls():
+                if (callee_path(t["callee"]) or "").endswith("Mp4Track::" + callee_name) and t.get("dest"):
+                    if c07.derives_from(b, pl["l"], t["dest"]["l"]):
+                        return True
+            return False
+        ok = len(seeks) == 1 and len(reads) == 1 and from_call(seeks[0][1]["args"][1], "sample_offset") and b.dominates(seeks[0][0], reads[0][0])
         bf = [f for f in lit["fields"] if f["name"] == "bytes"]
         buf_names = {m["name"] for m, _ in hirq.walk(bf[0]["e"]) if m.get("k") == "path" and m.get("res") == "local"} if bf else set()
         rbuf = b.op_str(reads[0][1]["args"][1]) if reads else ""
         ok = ok and any(nm in rbuf for nm in buf_names)
         allocs = [t for bb, t in b.calls() if (t["callee"].get("path") or "").endswith("vec::from_elem")]
-        ok = ok and len(allocs) == 1 and "sample_size(" in b.deep_str(allocs[0]["args"][1])
+        ok = ok and len(allocs) == 1 and from_call(allocs[0]["args"][1], "sample_size")
         # buffer length = looked-up size
         chk.require(ok, "R-FOOT", "Mp4Sample.bytes", "buffer filled by read_exact after seek(Start(sample_offset))", "the returned bytes are not the buffer read at the looked-up offset", site_of(frs))
     return chk.finish(
